@@ -22,8 +22,54 @@ def clean(d, drop=("uuid",)):
     return d
 
 
+def meaning(cls, text, platform):
+    """meaning of an address / extended entry text by the independent reader; None when it cannot read the text"""
+    from spec import cisco_ref
+    try:
+        if cls == "Address":
+            toks = text.split()
+            cubes, i, _ = cisco_ref.read_address(toks, 0, platform, {})
+            return ("addr", cubes) if i == len(toks) else None
+        if cls == "Ace":
+            return ("ace", cisco_ref.read_ace(text, platform, {}).sem)
+    except Exception:
+        return None
+    return None
+
+
+def same_meaning(m1, m2):
+    from spec import sets
+    if m1 is None or m2 is None:
+        return True
+    if m1[0] == "addr":
+        return sets.union_equal(m1[1], m2[1]) is None
+    a, b = m1[1], m2[1]
+    if a.proto is None or b.proto is None or a.proto == frozenset([0]) or b.proto == frozenset([0]):
+        # whether `0` means "any protocol" is C01's question (known finding there): compare everything but the protocol
+        import dataclasses
+        a, b = dataclasses.replace(a, proto=None), dataclasses.replace(b, proto=None)
+    return sets.sem_equal(a, b) is None
+
+
 def roundtrip(cls, line, kwargs, strict=True):
     """-> None or (kind, what)"""
+    r = roundtrip_(cls, line, kwargs, strict)
+    if r is None and not strict and cls in ("Address", "Ace"):
+        # accepted spellings: the re-parsed object keeps the meaning of the text that was written
+        import cisco_acl
+        C = getattr(cisco_acl, cls)
+        try:
+            o1 = C(line, **kwargs)
+        except (ValueError, TypeError):
+            return None
+        o2 = C(o1.line, **kwargs)
+        platform = dict(kwargs).get("platform", "ios")
+        if not same_meaning(meaning(cls, line, platform), meaning(cls, o2.line, platform)):
+            return ("meaning", f"{cls}({line!r}, {kwargs}) re-parses from its own text {o1.line!r} to {o2.line!r}, which does not mean what was written")
+    return r
+
+
+def roundtrip_(cls, line, kwargs, strict=True):
     import cisco_acl
     C = getattr(cisco_acl, cls)
     try:
